@@ -62,3 +62,107 @@ Definition log_record (node_level : N) (apps : list appender) (attached : list n
   if L <=? node_level
   then let (ev, errs) := fan apps attached L in ev ++ map Handler errs
   else [].
+
+(* ------------------------------------------------------------------------
+   Re-entrant histories.  lib.rs keeps no state between or during log calls
+   (Logger::log loads the immutable SharedLogger; Appender::append and
+   ConfiguredLogger::log hold no lock, flag or thread-local), so a user Append
+   or a user error handler may call Logger::log again on the same Logger while
+   an outer call is still running: the nested call is an ordinary call executed
+   at that point.
+
+   A `call` is one Logger::log call together with the scripted behaviour of the
+   user code it reaches:  its record (id, level L, routed to node `node`), the
+   appenders that panic inside Append::append for this record (`panics`), and
+   the nested calls (`kids`) that user code issues while this record is being
+   processed; kid k is issued by appender `by_app k` inside append() when
+   `by_handler k = false`, and by the error handler while it is handling the
+   error returned by appender `by_app k` when `by_handler k = true`.
+   (by_handler/by_app of a top-level call are unused.)
+
+   External things: the user Append/handler behaviour is scripted per record
+   (oracle = the call tree); a panic is modelled by the mark `Unwind`: unwinding
+   leaves lib.rs without running anything else up to the caller's catch_unwind,
+   and because nothing is stateful the events before the panic are those of the
+   same run without it, so the observable of a top-level call is the event list
+   cut after the first `Unwind` (`run_top`).  Nodes: node 0 is the root, node
+   k>0 a non-additive logger (routing itself is C01's subject); a node is its
+   (level, attachment list).
+   ------------------------------------------------------------------------ *)
+Inductive call :=
+  Call (id : nat) (by_handler : bool) (by_app : nat)
+       (node : nat) (L : N) (panics : list nat) (kids : list call).
+
+Inductive rev :=
+| Ev (id : nat) (e : event)      (* event e observed on the record with this id *)
+| Unwind (id : nat).             (* an appender panicked while appending record id *)
+
+Definition triggered (k : call) (h : bool) (a : nat) : bool :=
+  match k with Call _ bh ba _ _ _ _ => Bool.eqb bh h && Nat.eqb ba a end.
+
+Section Reentrant.
+  Variable apps : list appender.
+  Variable nodes : list (N * list nat).
+
+  (* Appender::append where the user Append, once called, does `inner a`
+     before returning its result *)
+  Definition app_append_r (id : nat) (inner : nat -> list rev) (a : nat) (ap : appender) (L : N)
+    : list rev * bool :=
+    let (ev, d) := chain a 0 (filters ap) L in
+    if d then (map (Ev id) ev ++ Ev id (Deliver a) :: inner a, fails ap)
+    else (map (Ev id) ev, false).
+
+  Fixpoint fan_r (id : nat) (inner : nat -> list rev) (attached : list nat) (L : N)
+    : list rev * list nat :=
+    match attached with
+    | [] => ([], [])
+    | i :: rest =>
+      let (ev, err) := app_append_r id inner i (nth i apps dummy_app) L in
+      let (evs, errs) := fan_r id inner rest L in
+      (ev ++ evs, if err then i :: errs else errs)
+    end.
+
+  (* Log::log: fan-out, then `for e in errs { (err_handler)(&e) }` where the
+     user handler, once called with appender i's error, does `inner_h i` *)
+  Definition log_record_r (id : nat) (inner_a inner_h : nat -> list rev)
+             (node_level : N) (attached : list nat) (L : N) : list rev :=
+    if L <=? node_level
+    then let (ev, errs) := fan_r id inner_a attached L in
+         ev ++ concat (map (fun i => Ev id (Handler i) :: inner_h i) errs)
+    else [].
+
+  Fixpoint run (c : call) : list rev :=
+    match c with
+    | Call id _ _ nd L panics kids =>
+      let issued (h : bool) (a : nat) :=
+          concat (map (fun k => if triggered k h a then run k else []) kids) in
+      log_record_r id
+        (fun a => (if existsb (Nat.eqb a) panics then [Unwind id] else []) ++ issued false a)
+        (issued true)
+        (fst (nth nd nodes (0, []))) (snd (nth nd nodes (0, []))) L
+    end.
+
+  (* catch_unwind around a top-level call *)
+  Fixpoint cut (l : list rev) : list rev :=
+    match l with
+    | [] => []
+    | Unwind i :: _ => [Unwind i]
+    | e :: rest => e :: cut rest
+    end.
+
+  Definition run_top (c : call) : list rev := cut (run c).
+
+  (* a thread that issues top-level calls one after the other *)
+  Definition run_seq (cs : list call) : list rev := concat (map run_top cs).
+End Reentrant.
+
+(* Two threads, deterministic rendezvous of the harness: thread 1 runs until
+   its error handler is entered for the first time (the handler records its
+   event, then blocks), thread 2 then runs to completion, then thread 1 is
+   released.  Without a handler call thread 1 simply finishes first. *)
+Fixpoint sched (ev1 ev2 : list rev) : list rev :=
+  match ev1 with
+  | [] => ev2
+  | Ev i (Handler a) :: rest => Ev i (Handler a) :: ev2 ++ rest
+  | e :: rest => e :: sched rest ev2
+  end.
